@@ -523,4 +523,5 @@ def r_zero(f, serde_sinks=False):
                 else:
                     msg = "%s builds a %s whose (rows, cols) may be %s: no guard enforces that empty arrays have no dimensions" % (b.ident, kind.split(":")[1], sorted(e["bad"]))
                 R.fail(b.ident, "%s#%d" % (kind, o), msg, b.where(e["span"]), {"states": sorted(e["bad"])})
+    R.require_floor(n_sites, 17, "construction sites / writer returns")
     return R, n_sites
